@@ -137,3 +137,80 @@ Proof.
   - pose proof (Qfloor_le (q + (1 # 2))) as H1. pose proof (Qlt_floor (q + (1 # 2))) as H2.
     rewrite inject_Z_plus in H2. change (inject_Z 1) with 1%Q in H2. apply Qabs_case; intros; lra.
 Qed.
+
+(* ------------------------------------------------------------------ *)
+(* device = host for the colour-setting commands                       *)
+(* ------------------------------------------------------------------ *)
+Definition set_only (o : RGBLed.op) : bool :=
+  match o with
+  | SetColor r g b | On r g b => comp_ok r && comp_ok g && comp_ok b
+  | Off => true
+  | _ => false
+  end.
+
+Lemma comp_ok_spec : forall x, comp_ok x = true -> validate_component x = None /\ clamp255 (c_int x) = zval x.
+Proof.
+  intros x H. unfold comp_ok in H. destruct (validate_component x) eqn:E; [discriminate|]. split; [reflexivity|].
+  unfold validate_component in E. destruct (is_intlike x) eqn:Ei; cbn [negb] in E; [|discriminate].
+  destruct (Qle_bool 0 (qval x) && Qle_bool (qval x) 255)%bool eqn:Er; cbn [negb] in E; [|discriminate].
+  apply andb_true_iff in Er as [H0 H1]. apply Qle_bool_iff in H0. apply Qle_bool_iff in H1.
+  unfold c_int. apply clamp255_id.
+  destruct x as [z|q|b|]; cbn in Ei; try discriminate; cbn [zval qval] in *.
+  - change 0%Q with (inject_Z 0) in H0. change 255%Q with (inject_Z 255) in H1. rewrite <- Zle_Qle in H0, H1. lia.
+  - destruct b; cbn; lia.
+Qed.
+
+Lemma set_color_sim : forall p s r g b, comp_ok r = true -> comp_ok g = true -> comp_ok b = true ->
+  exists s', set_color s r g b = (s', [Lvl [zval r; zval g; zval b]], Ok RNone) /\
+             color s' = (zval r, zval g, zval b) /\
+             dr_set p r g b = (mkDR (zval r, zval g, zval b) (any_on (zval r, zval g, zval b)), aw3 p (zval r, zval g, zval b)).
+Proof.
+  intros p s r g b Hr Hg Hb.
+  destruct (comp_ok_spec _ Hr) as [Vr Cr]. destruct (comp_ok_spec _ Hg) as [Vg Cg]. destruct (comp_ok_spec _ Hb) as [Vb Cb].
+  unfold set_color. rewrite Vr, Vg, Vb. cbn [first_error].
+  eexists. split; [reflexivity|]. split; [reflexivity|].
+  unfold dr_set, dr_write, clamp3. rewrite Cr, Cg, Cb. reflexivity.
+Qed.
+
+Lemma aw3_conv : forall p r g b, map dconv (aw3 p (r, g, b)) = hrconv p RTrunc (Lvl [r; g; b]).
+Proof. intros [[p1 p2] p3] r g b. reflexivity. Qed.
+
+Lemma rgb_set_step : forall p s st o, set_only o = true -> dr_col st = color s ->
+  map dconv (snd (drstep p st o)) = flat_map (hrconv p (rmode_of o)) (RGBLed.evs (RGBLed.step s o)) /\
+  dr_col (fst (drstep p st o)) = color (RGBLed.st (RGBLed.step s o)) /\
+  (exists x, RGBLed.res (RGBLed.step s o) = Ok x).
+Proof.
+  intros p s st o Ho Hc. destruct o as [| | |r g b|r g b| |r g b d n|r g b t d]; cbn [set_only] in Ho; try discriminate.
+  - apply andb_true_iff in Ho as [Ho Hb]. apply andb_true_iff in Ho as [Hr Hg].
+    destruct (set_color_sim p s r g b Hr Hg Hb) as (s' & Hh & Hcol & Hd).
+    cbn [drstep RGBLed.step rmode_of]. rewrite Hh, Hd. cbn [fst snd RGBLed.evs RGBLed.st RGBLed.res dr_col flat_map].
+    rewrite app_nil_r, aw3_conv. split; [reflexivity|]. split; [symmetry; exact Hcol|eexists; reflexivity].
+  - apply andb_true_iff in Ho as [Ho Hb]. apply andb_true_iff in Ho as [Hr Hg].
+    destruct (set_color_sim p s r g b Hr Hg Hb) as (s' & Hh & Hcol & Hd).
+    cbn [drstep RGBLed.step rmode_of]. rewrite Hh, Hd. cbn [fst snd RGBLed.evs RGBLed.st RGBLed.res dr_col flat_map].
+    rewrite app_nil_r, aw3_conv. split; [reflexivity|]. split; [symmetry; exact Hcol|eexists; reflexivity].
+  - cbn [drstep RGBLed.step rmode_of]. unfold off, dr_write.
+    destruct p as [[p1 p2] p3]. cbn. split; [reflexivity|]. split; [reflexivity|eexists; reflexivity].
+Qed.
+
+Lemma rgb_set_run : forall p ops s st, forallb set_only ops = true -> dr_col st = color s ->
+  drtr p st ops = fst (hrrun p s ops) /\ snd (hrrun p s ops) = true.
+Proof.
+  intros p ops. induction ops as [|o r IH]; intros s st Ho Hc; [split; reflexivity|].
+  cbn [forallb] in Ho. apply andb_true_iff in Ho as [H1 H2].
+  destruct (rgb_set_step p s st o H1 Hc) as (E1 & E2 & x & E3).
+  unfold drtr in *. cbn [drrun hrrun].
+  destruct (drstep p st o) as [st1 e1]. destruct (RGBLed.step s o) as [[s1 he1] r1].
+  cbn [fst snd RGBLed.evs RGBLed.st RGBLed.res] in *. subst r1.
+  destruct (IH s1 st1 H2 E2) as [I1 I2].
+  destruct (hrrun p s1 r) as [e2 ok2]. cbn [fst snd] in *.
+  rewrite map_app, E1, I1. split; [reflexivity|exact I2].
+Qed.
+
+Lemma rgb_set_canon : forall p ops, forallb set_only ops = true ->
+  canon (drtr p drinit ops) = canon (fst (hrrun p (black p) ops)) /\ snd (hrrun p (black p) ops) = true.
+Proof.
+  intros p ops H. destruct (rgb_set_run p ops (black p) drinit H) as [E1 E2].
+  { destruct p as [[a b] c]. reflexivity. }
+  rewrite E1. split; [reflexivity|exact E2].
+Qed.
